@@ -8,8 +8,9 @@ import SqVerif.Drive.Util
           ev = `C` (connect) | `D<c>:<chunk>` | `K<k>` (k-th suspended handler completes)
         `cli <done,err,reg,arrHdr,arrLenOff,arrEntry,doneIdOff> | <buf> | <wire> | <choices csv> | <calls>`
         `sock <choices csv> | <op> <op> ...`       op = `S<msg>` | `R<maxsize>`
-   out: `srv`  : `<id>:<payload> ... | rest=<n> err=<0|1>`
-        `net`  : `c0 h=<id,..> d=<id,..> rest=<n> f=<0|1> ; c1 ... ; pending=<n>`
+   out: `srv`  : `<id>:<payload> ... | rest=<n> err=0`  or  `... | rest=- err=1` (the read raised: twisted
+                 drops the connection, its buffer is not observable any more)
+        `net`  : `c0 h=<id,..> d=<id,..> rest=<n> f=0 ; c1 ... rest=- f=1 ; pending=<n>`
         `cli`  : one item per call, `ok id=<n> upd=<hex,..>` | `raised upd=..` | `blocked upd=..` | `closed` | `malformed`
                  then `| left=<buf+wire length>`
         `sock` : one item per recv: `m<hex or #len:a:b>` | `blocked` | `closed`
@@ -76,12 +77,12 @@ def parseOp (s : String) : Option SockOp :=
 
 def showSrv (r : Drained) : String :=
   " ".intercalate (r.frames.map fun f => s!"{(msgOf f).id}:{hex (msgOf f).payload}")
-    ++ s!" | rest={r.rest.length} err={if r.err then 1 else 0}"
+    ++ (if r.err then " | rest=- err=1" else s!" | rest={r.rest.length} err=0")
 
 def showNet (s : Node) : String :=
   let conns := (List.range s.bufs.length).map fun c =>
     s!"c{c} h={natCsv ((s.handledOn c).map fun f => (msgOf f).id)} d={natCsv (s.donesOn c)} " ++
-    s!"rest={(s.bufs.getD c []).length} f={if s.failed.contains c then 1 else 0}"
+    (if s.failed.contains c then "rest=- f=1" else s!"rest={(s.bufs.getD c []).length} f=0")
   " ; ".intercalate (conns ++ [s!"pending={s.pending.length}"])
 
 def showCall (z : RetSizes) : PullRes → String
